@@ -130,6 +130,8 @@ pub struct MsgRec {
 #[derive(Clone, Debug, Serialize)]
 pub struct ProbeRec {
     pub t: u64,
+    /// index of this probe's event in the global event list
+    pub ev: usize,
     pub step: usize,
     pub conn: Option<usize>,
     pub has_handle: bool,
@@ -494,8 +496,10 @@ impl<'d> Exec<'d> {
             })
             .collect();
         let (touches, _, _) = self.conn_counters();
+        let ev_index = self.world.borrow().events.len();
         let rec = ProbeRec {
             t: vtime::now(),
+            ev: ev_index,
             step: self.step_idx,
             conn: self.cur_conn(),
             has_handle: conn.is_some(),
